@@ -1,4 +1,5 @@
 import LcmProofs.Laws
+import LcmProofs.FiniteHorizon
 namespace Lcm
 
 /-! # C11 — the solution obeys the algebraic laws of finite-horizon dynamic programming
@@ -7,7 +8,8 @@ The laws are proved for the specification-level Bellman step `bellmanStep` (maxi
 choices of `u + β·continuation`), which is what every entry of `solve` is by R1 (`C01_entry_isMax_*` +
 `bellmanStep_isMax` + uniqueness of `IsMaxOver`), and for its two linear ingredients: multilinear
 inter/extrapolation (`interp`) and expectations over transition rows that sum to one. The backward induction
-over periods is `C11_affine_step` iterated: with `k_t = Σ_{j<T-1-t} β^j` for period `t+1` the step gives
+over periods is carried out for an abstract finite-horizon programme `DP` (`C11_affine`, `C11_beta_zero_all_periods`,
+`C11_stationary`); one step of it is `C11_affine_step`: with `k_t = Σ_{j<T-1-t} β^j` for period `t+1` the step gives
 `1 + β·k_t = Σ_{j<T-t} β^j` for period `t` (`C11_geometric`). -/
 
 /-- one backward step of the affine law -/
@@ -89,6 +91,27 @@ theorem C11_degenerate_row (v : List Rat) (l : Nat) (hl : l < v.length) :
           = List.map (fun k => if k = l then (1 : Rat) else 0) (List.range v.length) := by
         apply List.map_congr_left; intro k _; simp
       rw [hm]; exact this
+
+/-- **the affine law over the whole horizon** (backward induction, any number of periods): if utility is replaced
+by `a·utility + b` with `a > 0`, every value `j` periods before the end becomes `a` times the old value plus `b`
+times `Σ_{k ≤ j} β^k` (the sum of `β^k` over the remaining periods). `DP` is an arbitrary finite-horizon programme whose
+continuation functional commutes with affine maps (interpolation weights and transition rows sum to one). -/
+theorem C11_affine {S X : Type} (d : DP S X) (β a b : Rat) (ha : 0 < a) (hne : ∀ j s, d.choices j s ≠ [])
+    (hcont : ∀ j (f : S → Rat) (c : Rat) s x, d.cont j (fun s' => a * f s' + c) s x = a * d.cont j f s x + c)
+    (j : Nat) (s : S) :
+    (d.scale a b).value β j s = Ext.affine a (b * geo β (j + 1)) (d.value β j s) :=
+  DP.value_scale d β a b ha hne hcont j s
+
+/-- with `β = 0` every period's values equal the one-period problem of that period -/
+theorem C11_beta_zero_all_periods {S X : Type} (d : DP S X) (j : Nat) (s : S) :
+    d.value 0 j s = bellmanStep (d.choices j s) (fun _ => true) (d.u j s) (fun _ => 0) 0 :=
+  DP.value_beta_zero d j s
+
+/-- if no function depends on the period, the values `j` periods before the end are the same for every horizon: two
+programmes that agree on the data of their last `j+1` periods agree on the value `j` periods before the end -/
+theorem C11_stationary {S X : Type} (d d' : DP S X) (β : Rat) (j : Nat)
+    (h : ∀ i ≤ j, d.choices i = d'.choices i ∧ d.u i = d'.u i ∧ d.cont i = d'.cont i) (s : S) :
+    d.value β j s = d'.value β j s := DP.value_congr d d' β j h s
 
 -- non-vacuity: the affine law on a two-choice step (u = [1, 3], continuation [2, 0], β = 1/2, a = 2, b = 1, k = 3)
 example : bellmanStep [0, 1] (fun _ => true) (fun x => 2 * (if x = 0 then 1 else 3) + 1)
